@@ -667,6 +667,11 @@ struct PeerConnectionInner {
     certificate: Arc<dtls::Certificate>,
     dtls_fingerprint: String,
     remote_dtls_fingerprint: Mutex<Option<String>>,
+    /// Serialises create_offer / create_answer / set_local_description /
+    /// set_remote_description (the "operations chain" of the W3C API): two of them racing on
+    /// one connection could both pass the state check, and a failing call's restore could undo
+    /// the other's transition.
+    signaling_lock: tokio::sync::Mutex<()>,
     dtls_transport: Mutex<Option<Arc<DtlsTransport>>>,
     rtp_transport: Mutex<Option<Arc<RtpTransport>>>,
     rtp_media_ice_transports: Mutex<HashMap<u64, IceTransport>>,
@@ -834,6 +839,7 @@ impl PeerConnection {
             certificate,
             dtls_fingerprint,
             remote_dtls_fingerprint: Mutex::new(None),
+            signaling_lock: tokio::sync::Mutex::new(()),
             dtls_transport: Mutex::new(None),
             rtp_transport: Mutex::new(None),
             rtp_media_ice_transports: Mutex::new(HashMap::new()),
@@ -1306,6 +1312,7 @@ impl PeerConnection {
     }
 
     pub async fn create_offer(&self) -> RtcResult<SessionDescription> {
+        let _op = self.inner.signaling_lock.lock().await;
         let state = &self.inner.signaling_state;
         if *state.borrow() != SignalingState::Stable {
             return Err(RtcError::InvalidState(format!(
@@ -1349,6 +1356,7 @@ impl PeerConnection {
     }
 
     pub async fn create_answer(&self) -> RtcResult<SessionDescription> {
+        let _op = self.inner.signaling_lock.lock().await;
         let state = &self.inner.signaling_state;
         if *state.borrow() != SignalingState::HaveRemoteOffer {
             return Err(RtcError::InvalidState(
@@ -1368,32 +1376,42 @@ impl PeerConnection {
     }
 
     pub fn set_local_description(&self, desc: SessionDescription) -> RtcResult<()> {
+        // Synchronous, so it cannot wait for a signalling call that is in flight.
+        let _op = self.inner.signaling_lock.try_lock().map_err(|_| {
+            RtcError::InvalidState("another signalling operation is in progress".into())
+        })?;
         self.inner.validate_sdp_type(&desc.sdp_type)?;
 
         // Validate (and advance) the signaling state before touching any transceiver, so
         // that a call rejected by the state machine leaves mids, payload maps and extmaps
         // exactly as they were.
         {
-            let state = &self.inner.signaling_state;
             match desc.sdp_type {
                 SdpType::Offer => {
-                    if *state.borrow() != SignalingState::Stable {
+                    if !self
+                        .inner
+                        .signaling_transition(SignalingState::Stable, Some(SignalingState::HaveLocalOffer))
+                    {
                         return Err(RtcError::InvalidState(
                             "set_local_description(offer) requires stable signaling state".into(),
                         ));
                     }
-                    let _ = state.send(SignalingState::HaveLocalOffer);
                 }
                 SdpType::Answer => {
-                    if *state.borrow() != SignalingState::HaveRemoteOffer {
+                    if !self
+                        .inner
+                        .signaling_transition(SignalingState::HaveRemoteOffer, Some(SignalingState::Stable))
+                    {
                         return Err(RtcError::InvalidState(
                             "set_local_description(answer) requires remote offer".into(),
                         ));
                     }
-                    let _ = state.send(SignalingState::Stable);
                 }
                 SdpType::Pranswer => {
-                    if *state.borrow() != SignalingState::HaveRemoteOffer {
+                    if !self
+                        .inner
+                        .signaling_transition(SignalingState::HaveRemoteOffer, None)
+                    {
                         return Err(RtcError::InvalidState(
                             "set_local_description(pranswer) requires remote offer".into(),
                         ));
@@ -1532,6 +1550,7 @@ impl PeerConnection {
         // transceiver updates, transport start). If a late step fails (e.g. a socket cannot be
         // bound) the call must leave everything as it was: unless disarmed on success, the
         // guard undoes what the earlier steps did.
+        let _op = self.inner.signaling_lock.lock().await;
         let mut undo = SignalingUndo::new(self);
         self.inner.validate_sdp_type(&desc.sdp_type)?;
         let remote_dtls_fingerprint = if self.config().transport_mode == TransportMode::WebRtc {
@@ -1607,29 +1626,35 @@ impl PeerConnection {
         }
 
         {
-            let state = &self.inner.signaling_state;
             match desc.sdp_type {
                 SdpType::Offer => {
-                    if *state.borrow() != SignalingState::Stable {
+                    if !self
+                        .inner
+                        .signaling_transition(SignalingState::Stable, Some(SignalingState::HaveRemoteOffer))
+                    {
                         return Err(RtcError::InvalidState(
                             "set_remote_description(offer) requires stable signaling state".into(),
                         ));
                     }
-                    let _ = state.send(SignalingState::HaveRemoteOffer);
                 }
                 SdpType::Answer => {
-                    if *state.borrow() != SignalingState::HaveLocalOffer {
+                    if !self
+                        .inner
+                        .signaling_transition(SignalingState::HaveLocalOffer, Some(SignalingState::Stable))
+                    {
                         return Err(RtcError::InvalidState(
                             "set_remote_description(answer) requires local offer".into(),
                         ));
                     }
-                    let _ = state.send(SignalingState::Stable);
                 }
                 SdpType::Pranswer => {
                     // Provisional answer (SIP 183 early media): set up media transport like an
                     // answer but keep signaling state in HaveLocalOffer so the final 200 OK
                     // answer can still arrive and complete the negotiation.
-                    if *state.borrow() != SignalingState::HaveLocalOffer {
+                    if !self
+                        .inner
+                        .signaling_transition(SignalingState::HaveLocalOffer, None)
+                    {
                         return Err(RtcError::InvalidState(
                             "set_remote_description(pranswer) requires local offer".into(),
                         ));
@@ -5709,6 +5734,24 @@ impl PeerConnectionInner {
         };
         used.insert(id);
         id.to_string()
+    }
+
+    /// Atomic check-and-transition of the signaling state: succeeds (and moves to `next`, if
+    /// any) only if the state is `required` at that instant, so a concurrent close() can
+    /// neither be missed nor overwritten.
+    fn signaling_transition(&self, required: SignalingState, next: Option<SignalingState>) -> bool {
+        let mut accepted = false;
+        self.signaling_state.send_if_modified(|state| {
+            accepted = *state == required;
+            match next {
+                Some(next) if accepted && *state != next => {
+                    *state = next;
+                    true
+                }
+                _ => false,
+            }
+        });
+        accepted
     }
 
     fn close_with_reason(&self, reason: DisconnectReason) {
